@@ -153,6 +153,28 @@ def push (swallow : Bool) (nodes : Nat → Node) (g : Graph) (exc : Nat → Nat 
       | (p, none) => (p, some (if started then exc i (r.1.attempts i) else refusal i))
     else epi
 
+/-! ### an all-of trigger around a run that raises
+
+`AccumulatingInputSignal.__call__`: when every connection has been heard, `self.reset(); self.callback()` — the
+callback is the owner's `run()`, which (for a parentless owner) raises through the trigger into the emitter. The variant
+`self.callback(); self.reset()` never reaches the reset when the callback raises: the trigger keeps the full set. -/
+
+def accFire (resetFirst : Bool) (lab : Nat → Label) (a : Acc) (other : Option Nat) (callbackRaises : Bool) : Acc × Bool :=
+  let r := match other with
+    | some e => insertL (lab e) a.received
+    | none => a.received
+  if covered lab a.conns r then
+    ({ a with received := if resetFirst || !callbackRaises then [] else r }, true)
+  else ({ a with received := r }, false)
+
+/-- a history of arrivals, each with "would the owner's run raise now"; returns the final trigger and how often it fired -/
+def accHistory (resetFirst : Bool) (lab : Nat → Label) : Acc → List (Nat × Bool) → Acc × Nat
+  | a, [] => (a, 0)
+  | a, (e, raises) :: rest =>
+    let r := accFire resetFirst lab a (some e) raises
+    let h := accHistory resetFirst lab r.1 rest
+    (h.1, h.2 + (if r.2 then 1 else 0))
+
 /-- what the caller sees (local children): nothing; one error → `FailedChildError from` it; several → `from None` -/
 inductive Seen (E : Type) where
   | nothing
